@@ -368,7 +368,7 @@ OwnerEpilogue(t) ==
 \* handler tasks: the most general scenario handler
 \* ------------------------------------------------------------------------
 HEnterLine(a) == LET x == task[HT(a)] IN
-  Line("HEnter") @@ [act |-> a, b |-> x.b, e |-> x.e, h |-> x.h, byk |-> TaskLabelKind(x.owner), bya |-> 0,
+  Line("HEnter") @@ [act |-> a, b |-> x.b, e |-> x.e, h |-> x.h, byk |-> TaskLabelKind(x.owner), bya |-> IF x.owner[1] = "h" THEN x.owner[2] ELSE 0,
                      rb |-> Last(ev[x.e].path), sync |-> FALSE, tmo |-> -1]       \* event.event_bus = last bus of the path (finding F9)
 
 HStart(a) ==
